@@ -53,13 +53,24 @@ class Build:
         self.scratch = scratch
         self.cache = {}
         self.lock = threading.Lock()
+        self.keylocks = {}
         self.translations = []
 
     def unit(self, harness, defines=(), opt='-O1', ub=False, redirect=(), footprint=False, extra_src=(), vcall=()):
         key = (harness, tuple(defines), opt, ub, tuple(redirect), footprint, tuple(extra_src), tuple(vcall))
+        # one builder per key: the other threads that need the same unit wait for it (two builders would rewrite the .c file
+        # while a solver process of the first one is already reading it)
         with self.lock:
             if key in self.cache:
                 return self.cache[key]
+            klock = self.keylocks.setdefault(key, threading.Lock())
+        with klock:
+            with self.lock:
+                if key in self.cache:
+                    return self.cache[key]
+            return self._build_unit(key, harness, defines, opt, ub, redirect, footprint, extra_src, vcall)
+
+    def _build_unit(self, key, harness, defines, opt, ub, redirect, footprint, extra_src, vcall):
         h = hashlib.sha1(repr(key).encode()).hexdigest()[:12]
         base = os.path.join(self.scratch, os.path.basename(harness).replace('.cpp', '') + '_' + h)
         ll, c = base + '.ll', base + '.c'
@@ -427,6 +438,18 @@ def check_property(prop, tier, seed, only=None, keep=False, jobs=NCPU):
                     futs.append(ex.submit(obligations.run_special, build, ob, tier, replay_dir, prop, sh, VERIF, REPO))
             for f in futs:
                 results.append(f.result())
+        # second pass, two at a time: obligations that got no verdict while 12 solver processes shared the machine (allocation
+        # failure below their own limit, or killed early).  An obligation that used its whole time budget is not retried.
+        retry = [k for k, r in enumerate(results) if obls[k].kind == 'cbmc' and r['status'] == 'inconclusive' and
+                 (str(r.get('why', '')).startswith('out of memory') or
+                  max(r.get('cbmc', {}).get('time_s', 0), r.get('witness', {}).get('time_s', 0)) < 0.8 * obls[k].timeout)]
+        if retry and len(obls) > 2:
+            with concurrent.futures.ThreadPoolExecutor(max_workers=2) as ex:
+                futs = {k: ex.submit(run_obligation, build, obls[k], tier, replay_dir, prop) for k in retry}
+                for k, f in futs.items():
+                    r2 = f.result()
+                    r2['retried_alone_after'] = results[k].get('why', '')
+                    results[k] = r2
         tv = None
         if spec.get('translation_validation', True):
             try:
